@@ -258,6 +258,23 @@ static std::string step(const Toks& t)
 		delete ps;
 		return out;
 	}
+	if (op == "safec" && t.size() == 2) {
+		// read-only wide view through a const SafeString (LPCWSTR use), then ~SafeString -> fixW()
+		std::string b = unhex(t[1]);
+		String* ps = new String(b.data(), (int)b.size());
+		const SafeString* ss = new SafeString(*ps);
+		const wchar_t* w = *ss;
+		long off = (const char*)w - ps->data();
+		int cap = ps->cap();
+		std::string out = "off=" + str(off) + " cap=" + str(cap);
+		if (off >= 0 && off % 4 == 0 && off + 4 <= cap) out += " wide=" + natlist(w, (int)wcslen(w));
+		else out += " wide=(pointer outside the string buffer)";
+		delete ss;   // fixW()
+		if (ps->length() != (int)strlen(**ps)) { delete ps; return "err length-not-strlen"; }
+		out += " " + lenhex(*ps);
+		delete ps;
+		return out;
+	}
 	if (op == "warr" && t.size() == 2) {
 		std::vector<long long> v = ints(t[1]);
 		Array<wchar_t> a;
